@@ -30,6 +30,8 @@ var ignoreFlags = []ignoreFlag{
 func C16(e *Env) {
 	r := e.R
 	e.analysedBase()
+	cliSurfaceRule(e, "R16.0")
+	e.R.Rule("R16.0", "documented command line (sub-command build, flags and shorthands) exists", 7)
 	r.Rule("R16.1", "link 1: the flag literal is bound to its own variable by BoolVar(P)", 2)
 	r.Rule("R16.2", "link 2: the runner payload's *Active field is the negation of exactly that flag variable (one negation)", 2)
 	r.Rule("R16.3", "link 3: buildRunner calls Active(payload field) on the step returned by the matching getter, unconditionally", 2)
@@ -655,4 +657,55 @@ func fromParam(v ssa.Value, depth int) bool {
 		return fromParam(x.X, depth+1)
 	}
 	return false
+}
+
+// cliSurfaceRule: the documented command line exists — sub-command `build`, flags --input/-i, --output/-o,
+// --quiet/-q, --stub, --ignore-missing-params, --ignore-missing-services (README.md, `gontainer build --help`).
+// A misspelt name compiles and passes the suite (no test runs the command) and makes every documented
+// invocation fail with "unknown command" / "unknown shorthand flag".
+func cliSurfaceRule(e *Env, rule string) {
+	r := e.R
+	fd, pk := e.P.Decl("internal/cmd", "NewBuildCmd")
+	key := "internal/cmd.NewBuildCmd"
+	if fd == nil {
+		r.Undecide(rule, key, "anchor not found")
+		return
+	}
+	info := pk.TypesInfo
+	use := ""
+	flags := map[string]string{} // name -> shorthand
+	ast.Inspect(fd.Body, func(n ast.Node) bool {
+		switch x := n.(type) {
+		case *ast.CompositeLit:
+			if t := info.TypeOf(x); t != nil && strings.HasSuffix(t.String(), "cobra.Command") {
+				for _, el := range x.Elts {
+					if kv, ok := el.(*ast.KeyValueExpr); ok {
+						if id, ok := kv.Key.(*ast.Ident); ok && id.Name == "Use" {
+							use, _ = load.StringOf(info, kv.Value)
+						}
+					}
+				}
+			}
+		case *ast.CallExpr:
+			name := calleeName(load.Callee(info, x))
+			if !strings.HasPrefix(name, "github.com/spf13/pflag.(FlagSet).") || !strings.Contains(name, "Var") || len(x.Args) < 3 {
+				return true
+			}
+			long, ok := load.StringOf(info, x.Args[1])
+			if !ok {
+				return true
+			}
+			short := ""
+			if strings.HasSuffix(name, "P") {
+				short, _ = load.StringOf(info, x.Args[2])
+			}
+			flags[long] = short
+		}
+		return true
+	})
+	r.Check(len(strings.Fields(use)) > 0 && strings.Fields(use)[0] == "build", rule, key+"#use", fmt.Sprintf("the sub-command is `build` (Use: %q)", use))
+	for _, f := range []struct{ long, short string }{{"input", "i"}, {"output", "o"}, {"quiet", "q"}, {"stub", ""}, {"ignore-missing-params", ""}, {"ignore-missing-services", ""}} {
+		s, ok := flags[f.long]
+		r.Check(ok && (f.short == "" || s == f.short), rule, key+"#flag:--"+f.long, fmt.Sprintf("the documented flag --%s (shorthand %q) is registered (found: registered=%v shorthand %q)", f.long, f.short, ok, s))
+	}
 }
